@@ -49,8 +49,9 @@ class Config:
 
 
 class BodyFlow:
-    def __init__(self, eng, body, s0):
+    def __init__(self, eng, body, s0, parent_flow=None):
         self.eng = eng
+        self.parent_flow = parent_flow
         self.b = body
         self.cfg = eng.cfg
         self.ov = flow.Origin(body, stop_at_vars=True)
@@ -62,7 +63,28 @@ class BodyFlow:
         self.stmt_state = {}   # (bb, idx) -> state before the statement
         self.assumed = []      # (kind, detail) optimistic facts used
         self._edge_gen = {}
+        self.count_vars = self._count_vars()
         self._run()
+
+    def _count_vars(self):
+        """variables that hold the node count: single definition `<graph>.len()` (a stale copy is a lower bound, the count never
+        shrinks), or a capture of such a variable of the creating body."""
+        b = self.b
+        out = {}
+        for l, names in b.varnames.items():
+            ds = [d for d in b.defs.get(l, []) if d[2] in ('assign', 'call', 'passign', 'pcall', 'yield')]
+            if len(ds) != 1 or len(b.var_local(names[0])) != 1:
+                continue
+            r = flow.render(self.ov.of_local(l, 0, frozenset()))
+            if self.cfg.n_rx.match(r):
+                out['var:' + names[0]] = r
+        if self.parent_flow is not None:
+            for k, v in self.parent_flow.count_vars.items():
+                out['cap:' + k.split(':', 1)[1]] = v
+        return out
+
+    def is_n(self, e):
+        return bool(self.cfg.n_rx.match(e)) or e in self.count_vars
 
     # ---- rendering
     def rv(self, op):
@@ -92,13 +114,13 @@ class BodyFlow:
                 small, big = a, b_
             elif (not neg and rel == '>=' and c >= 1) or (neg and rel == '<=' and c >= 0):
                 small, big = b_, a
-            if small is not None and self.cfg.n_rx.match(big):
+            if small is not None and self.is_n(big):
                 return small
             return None
         m = _PRED1.match(p)
         if m:
             neg, a, rel, c = m.group(1) == '!', m.group(2), m.group(3), int(m.group(4))
-            if self.cfg.n_rx.match(a) and ((neg and rel == '==' and c == 0) or (not neg and rel == '>=' and c >= 1) or (neg and rel == '<=' and c >= 0)):
+            if self.is_n(a) and ((neg and rel == '==' and c == 0) or (not neg and rel == '>=' and c >= 1) or (neg and rel == '<=' and c >= 0)):
                 return ('NONEMPTY',)
         return None
 
@@ -317,7 +339,7 @@ class Engine:
                         m = re.match(r'^(?:var|arg|cap):(\w+)$', t)
                         if m:
                             s0.add('cap:' + m.group(1))
-            f = BodyFlow(self, b, s0)
+            f = BodyFlow(self, b, s0, parent_flow=pf if par is not None else None)
         else:
             s0 = (set(tok for _, tok in self.id_params(b)) | {'NONEMPTY'}) - set(drop)
             f = BodyFlow(self, b, s0)
